@@ -183,7 +183,10 @@ def attach(spec, ref, probes):
             r = ref.get(k)
             if r is not None:
                 exp[k] = r['dg']
-                bud[k] = int(20 * f * r.get('ev', 5000)) + 10000
+                ev = r.get('ev')
+                if ev is None:
+                    ev = (_HINTS.get(k) or ['ok', 5000])[1]
+                bud[k] = int(20 * f * ev) + 10000
     for op in probes:
         k = O.op_key(op)
         if k in ref:
